@@ -564,7 +564,13 @@ func Drive(prop, tier string, seed uint64) int {
 		"violations":  reported,
 	}
 	eb, _ := json.MarshalIndent(ev, "", " ")
-	if err := os.WriteFile(filepath.Join(VerifDir, "evidence", prop+".json"), eb, 0o644); err != nil {
+	evDir := filepath.Join(VerifDir, "evidence")
+	if d := os.Getenv("VERIF_EVIDENCE_DIR"); d != "" {
+		// runs against a deliberately broken tree (tools/try_mutant.sh) keep their evidence apart
+		evDir = d
+		_ = os.MkdirAll(evDir, 0o755)
+	}
+	if err := os.WriteFile(filepath.Join(evDir, prop+".json"), eb, 0o644); err != nil {
 		fmt.Fprintln(os.Stderr, err)
 		return 2
 	}
